@@ -145,6 +145,7 @@ void Service::CleanupStaleSessions() {
 }
 
 void Service::CleanupAllSessions() {
+  RIME_VERIF_YIELD(RIME_VERIF_CLEANUPALL_ENTER);
   sessions_.clear();
 }
 
